@@ -560,7 +560,7 @@ type rangeChoice struct {
 var rangePalette = []rangeChoice{
 	{"10.0.0.0/24", "", 4}, {"10.0.0.0/24", "", 6}, {"10.0.0.0/26", "", 4}, {"10.0.0.64/26", "", 4}, {"10.0.1.0/24", "", 5},
 	{"10.0.0.0/23", "", 8}, {"10.0.0.0/28", "", 4}, {"10.0.0.0/27", "", 4}, {"10.0.0.16/28", "", 4},
-	{"", "fd00::/120", 4}, {"", "fd00::/124", 4}, {"", "fd00::/122", 5}, {"", "fd00:0:0:2::/63", 65},
+	{"", "fd00::/120", 4}, {"", "fd00::/124", 4}, {"", "fd00::/122", 5}, {"", "fd00:0:0:2::/63", 65}, {"", "fd00:0:0:10::/60", 60},
 	{"10.0.0.0/24", "fd00::/120", 4}, {"10.0.0.0/26", "fd00::/124", 4}, {"10.0.2.0/27", "fd00::/122", 4}, {"10.0.0.0/27", "fd00::40/122", 5},
 	{"10.0.3.0/28", "fd00:1::/121", 4},
 }
@@ -937,7 +937,7 @@ func (g *gen) bootLine(withSvc bool) string {
 	s1, s2 := "-", "-"
 	if withSvc {
 		svc4 := []string{"10.0.0.0/28", "10.0.0.32/27", "10.0.0.0/22", "10.0.0.128/25", "10.0.0.17/32", "192.168.0.0/16"}
-		svc6 := []string{"fd00::/126", "fd00::/118", "fd00::80/121", "fd00::f0/124", "fc00::/7"}
+		svc6 := []string{"fd00::/126", "fd00::/118", "fd00::80/121", "fd00::f0/124", "fc00::/7", "fd00:0:0:15::/108", "fd00:0:0:1a::/63"}
 		pick := func(l []string) string {
 			_, n, _ := parseCIDR(l[rng.Intn(len(l))])
 			c, _ := canon.FromIPNet(n)
